@@ -1,8 +1,59 @@
-import Pun.Model.Proto
+import Pun.Model.KS
 namespace Pun.Drv.C17
-open Pun
+open Pun Pun.KS
 
+def showB (b : Bundle × Bundle) : String :=
+  s!"ok {showList b.1.q} {showList b.1.p} {showList b.2.q} {showList b.2.p}"
+
+def showLR : Except Err (List Rat × List Rat) → String
+  | .ok (l, r) => s!"ok {showList l} {showList r}"
+  | .error e => s!"err {e}"
+
+/-- requests
+* `dalpha n alpha r1 r2`              → `ok D` | `err K`
+* `band s D`                          → `ok q_u p_u q_l p_l`     (`s = []` → `err ZeroDivision`: `1/len(s)`)
+* `iband lo hi D`                     → `ok q_u p_u q_l p_l`
+* `frombundles q_a p_a q_b p_b pv`    → `ok left right`
+* `kspbox s D pv` / `ikspbox lo hi D pv` → `ok left right`
+* `eval q p [t…]`                     → `ok [values]` -/
 def handle : List String → String
+  | ["dalpha", n, a, r1, r2] =>
+    match parseNat n, parseRat a, parseRat r1, parseRat r2 with
+    | some n, some a, some r1, some r2 =>
+      match dAlpha n a r1 r2 with
+      | .ok d => s!"ok {showRat d}"
+      | .error e => s!"err {e}"
+    | _, _, _, _ => "bad-op"
+  | ["band", s, d] =>
+    match parseList s, parseRat d with
+    | some s, some d => if s = [] then "err ZeroDivision" else showB (band s d)
+    | _, _ => "bad-op"
+  | ["iband", lo, hi, d] =>
+    match parseList lo, parseList hi, parseRat d with
+    | some lo, some hi, some d =>
+      if lo.length ≠ hi.length then "bad-op"
+      else if lo = [] then "err ZeroDivision" else showB (iband lo hi d)
+    | _, _, _ => "bad-op"
+  | ["frombundles", qa, pa, qb, pb, pv] =>
+    match parseList qa, parseList pa, parseList qb, parseList pb, parseList pv with
+    | some qa, some pa, some qb, some pb, some pv =>
+      if qa.length ≠ pa.length ∨ qb.length ≠ pb.length then "bad-op"
+      else showLR (fromBundles ⟨qa, pa⟩ ⟨qb, pb⟩ pv)
+    | _, _, _, _, _ => "bad-op"
+  | ["kspbox", s, d, pv] =>
+    match parseList s, parseRat d, parseList pv with
+    | some s, some d, some pv => if s = [] then "err ZeroDivision" else showLR (ksPbox s d pv)
+    | _, _, _ => "bad-op"
+  | ["ikspbox", lo, hi, d, pv] =>
+    match parseList lo, parseList hi, parseRat d, parseList pv with
+    | some lo, some hi, some d, some pv =>
+      if lo.length ≠ hi.length then "bad-op"
+      else if lo = [] then "err ZeroDivision" else showLR (iksPbox lo hi d pv)
+    | _, _, _, _ => "bad-op"
+  | ["eval", q, p, ts] =>
+    match parseList q, parseList p, parseList ts with
+    | some q, some p, some ts => s!"ok {showList (ts.map (Bundle.eval ⟨q, p⟩))}"
+    | _, _, _ => "bad-op"
   | _ => "bad-op"
 
 end Pun.Drv.C17
